@@ -1,8 +1,9 @@
-(* requires: Shard *)
+(* requires: Shard Compaction *)
 (* shard_run <cap> <op>…  — replays labels on Model/Shard.v and prints one observation per 'O' op,
    joined by " | ".  Ops: S<k>.<ctx>.<uid>  F  W  fb fw<uid> fi fp fc fx fd  K  T  O *)
 open Conv
 open Shard
+open Compaction
 
 let ks evs = Stdlib.String.concat "," (Stdlib.List.map (fun e -> string_of_n e.ek) evs)
 let ns l = Stdlib.String.concat "," (Stdlib.List.map string_of_n l)
@@ -37,9 +38,49 @@ let run (t : string list) : string =
   | "shard_run" :: cap :: nuids :: nctx :: ops ->
       let s = ref (init (n_of_string cap)) in
       let outs = ref [] in
+      let kfan = ref (n_of_int 2) in
+      let cur_batch = ref None in
+      let cur_dr = ref [] in
+      let all_dr = ref [] in
+      let boks = ref [] in
+      let round_ix = ref [] in
+      let used = ref [] in        (* segment labels that existed earlier in this process lifetime *)
+      let stale = ref [] in       (* labels re-created in the same lifetime: label-keyed caches may be stale *)
+      let note_dirs () = Stdlib.List.iter (fun d -> if not (Stdlib.List.mem d.sid !used) then used := d.sid :: !used) !s.dirs in
+      let nlist str = if str = "" then [] else Stdlib.List.map n_of_string (Stdlib.String.split_on_char '+' str) in
       Stdlib.List.iter (fun op ->
         let l = Stdlib.String.length op in
-        if op = "O" then outs := observe !s (int_of_string nuids) (int_of_string nctx) :: !outs
+        if op = "O" then begin
+          let stale_rows = Stdlib.List.concat (Stdlib.List.map (fun d -> if Stdlib.List.mem d.sid !stale then d.srows else []) !s.dirs) in
+          outs := (observe !s (int_of_string nuids) (int_of_string nctx) ^ ";stalerows=" ^ ks stale_rows ^ ";bok=" ^ Stdlib.String.concat "," (Stdlib.List.rev !boks)
+                   ^ ";index=" ^ Stdlib.String.concat "," (Stdlib.List.map (fun (i, us) -> string_of_n i ^ ":" ^ Stdlib.String.concat "+" (Stdlib.List.map string_of_n us)) !s.index)) :: !outs;
+          boks := []
+        end
+        else if l > 1 && op.[0] = 'k' then kfan := n_of_string (Stdlib.String.sub op 1 (l - 1))
+        else if l > 2 && op.[0] = 'c' && op.[1] = 'w' then begin
+          match Stdlib.String.split_on_char ':' (Stdlib.String.sub op 2 (l - 2)) with
+          | [o; ins; us] ->
+              let b = { b_out = n_of_string o; b_inputs = nlist ins; b_uids = nlist us } in
+              boks := (if batch_ok !round_ix !kfan b then "1" else "0") :: !boks;
+              cur_batch := Some b;
+              note_dirs ();
+              if Stdlib.List.mem b.b_out !used && not (Stdlib.List.exists (fun d -> d.sid = b.b_out) !s.dirs)
+              then stale := b.b_out :: !stale;
+              s := cstep !s (CWrite b)
+          | _ -> failwith "bad cw"
+        end
+        else if op = "cs" then round_ix := !s.index
+        else if op = "ci" then begin
+          match !cur_batch with
+          | Some b -> cur_dr := drained !s.index b; s := cstep !s (CIndex b)
+          | None -> failwith "ci without batch"
+        end
+        else if op = "cl" then begin
+          match !cur_batch with
+          | Some b -> s := cstep !s (CLive (b, !cur_dr)); all_dr := !all_dr @ !cur_dr
+          | None -> failwith "cl without batch"
+        end
+        else if op = "cr" then begin s := cstep !s (CReclaim !all_dr); all_dr := [] end
         else if l > 2 && op.[0] = 'w' && op.[1] = 'd' then
           s := step !s (LFw (FwWalDel (n_of_string (Stdlib.String.sub op 2 (l - 2)))))
         else if l > 2 && op.[0] = 'f' && op.[1] = 'w' then
@@ -49,6 +90,7 @@ let run (t : string list) : string =
           | [k; c; u] -> s := step !s (LStore { ek = n_of_string k; ectx = n_of_string c; euid = n_of_string u })
           | _ -> failwith "bad S"
         end else
+          let () = if op = "T" then begin used := []; stale := [] end else note_dirs () in
           let lab = match op with
             | "F" -> LFlushCmd | "W" -> LWalWrite | "Wr" -> LWalRotate | "K" -> LCrash | "T" -> LRestart
             | "fb" -> LFw FwBegin | "fm" -> LFw FwMkdir | "fi" -> LFw FwIndex | "fp" -> LFw FwPublish
